@@ -90,6 +90,8 @@ def gen_op(rng, net, spec, tiny: bool = False) -> dict:  # noqa: ANN001
     if r < 0.60:
         return {"op": "update_parameters", "values": {p: dy(rng, 0.25, 2.5) for p in rng.sample(pnames, min(2, len(pnames)))}}
     if r < 0.65:
+        if rng.random() < 0.5:
+            return {"op": "scale_parameters", "factors": {p: rng.choice([0.5, 2.0, 1.5]) for p in rng.sample(pnames, min(2, len(pnames)))}}
         return {"op": "scale_parameter", "name": rng.choice(pnames), "factor": rng.choice([0.5, 2.0, 1.5])}
     if r < 0.76:
         return {"op": "update_variable", "name": rng.choice(net.variables), "value": dy(rng, 0.0, 4.0)}
@@ -128,7 +130,11 @@ def run_case(case: dict) -> dict:
     tiny = rng.random() < 0.2
     counters["mode:tiny_segments_at_large_time"] = int(tiny)
     repeat: list[dict] = []
-    for _ in range(rng.randint(2, 8) + (3 if tiny else 0)):
+    # in 40 % of the histories nothing is read until the end (reading a result in between re-applies parameters to the model)
+    read_only_at_end = rng.random() < 0.4
+    counters["mode:result_read_only_at_the_end"] = int(read_only_at_end)
+    n_ops = rng.randint(2, 8) + (3 if tiny else 0)
+    for i_op in range(n_ops):
         op = repeat.pop() if repeat else gen_op(rng, net, spec, tiny)
         if op["op"] in ("protocol_tc", "simulate_tc") and op.get("relative", op["op"] == "protocol_tc") and not op.get("again") and rng.random() < 0.6:
             # a cycle that is run again: the very same (relative) grid object and protocol for the next stretch
@@ -139,7 +145,7 @@ def run_case(case: dict) -> dict:
         counters[f"op:{op['op']}"] = counters.get(f"op:{op['op']}", 0) + 1
         v, stop = simhist.execute(sim, spec, op)
         v = [x for x in v if not x.get("benign")]
-        if not stop:
+        if not stop and (not read_only_at_end or i_op == n_ops - 1 or op["op"] == "read_views"):
             v += simhist.verify(spec, sim)
             counters["segments_checked"] += len(spec.segments)
         for x in v:
